@@ -273,10 +273,11 @@ class OctetStringEncoder(AbstractItemEncoder):
             asn1Spec = asn1Spec.clone(tagSet=tagSet)
 
         pos = 0
-        substrate = null
+        octets, substrate = substrate, null
 
         while True:
-            chunk = value[pos:pos + maxChunkSize]
+            # segments are cut from the octets, not from the characters
+            chunk = octets[pos:pos + maxChunkSize]
             if not chunk:
                 break
 
